@@ -52,19 +52,30 @@ pub fn snap(g: &impl GraphLike) -> Result<Snap, String> {
 pub enum Tens {
     Exact(Vec<R>),
     Float(Vec<Cf>),
+    /// float tensor whose entries carry a non-negligible absolute cancellation noise (see
+    /// `eval::eval_float_noise`); only produced by `eval_snap` when that noise is larger
+    /// than 1% of the comparison tolerance
+    FloatN(Vec<Cf>, f64),
 }
 
 impl Tens {
     pub fn to_float(&self) -> Vec<Cf> {
         match self {
             Tens::Exact(v) => v.iter().map(|r| r.to_cf()).collect(),
-            Tens::Float(v) => v.clone(),
+            Tens::Float(v) | Tens::FloatN(v, _) => v.clone(),
         }
     }
     pub fn len(&self) -> usize {
         match self {
             Tens::Exact(v) => v.len(),
-            Tens::Float(v) => v.len(),
+            Tens::Float(v) | Tens::FloatN(v, _) => v.len(),
+        }
+    }
+    /// absolute noise allowance of this tensor's entries (0 unless FloatN)
+    pub fn noise(&self) -> f64 {
+        match self {
+            Tens::FloatN(_, n) => *n,
+            _ => 0.0,
         }
     }
     pub fn is_exact(&self) -> bool {
@@ -74,7 +85,19 @@ impl Tens {
     pub fn same(&self, other: &Tens, tol: f64) -> bool {
         match (self, other) {
             (Tens::Exact(a), Tens::Exact(b)) => a == b,
-            _ => eval::close(&self.to_float(), &other.to_float(), tol),
+            _ => {
+                let noise = self.noise() + other.noise();
+                if noise == 0.0 {
+                    eval::close(&self.to_float(), &other.to_float(), tol)
+                } else {
+                    let (a, b) = (self.to_float(), other.to_float());
+                    if a.len() != b.len() {
+                        return false;
+                    }
+                    let m = a.iter().chain(b.iter()).map(|x| x.norm()).fold(1.0f64, f64::max);
+                    m.is_finite() && a.iter().zip(b.iter()).all(|(x, y)| (x - y).norm() <= tol * m + noise)
+                }
+            }
         }
     }
     pub fn proportional(&self, other: &Tens, tol: f64) -> bool {
@@ -87,6 +110,7 @@ impl Tens {
         match self {
             Tens::Exact(v) => v.iter().all(|x| x.is_zero()),
             Tens::Float(v) => v.iter().all(|x| x.norm() < 1e-12),
+            Tens::FloatN(v, n) => v.iter().all(|x| x.norm() < 1e-12 + n),
         }
     }
     pub fn brief(&self) -> Value {
@@ -107,7 +131,13 @@ pub fn eval_snap(s: &Snap) -> Result<Tens, EvalError> {
         // only the stored scalar is inexact: keep the diagram part exact
         Ok(Tens::Float(eval::eval_exact_times_float(&s.diag, s.scalar.to_cf())?))
     } else {
-        Ok(Tens::Float(eval::eval_float(&s.diag, s.scalar.to_cf())?))
+        let (v, noise) = eval::eval_float_noise(&s.diag, s.scalar.to_cf())?;
+        let m = v.iter().map(|x| x.norm()).fold(1.0f64, f64::max);
+        if noise > 0.01 * FLOAT_TOL * m {
+            Ok(Tens::FloatN(v, noise))
+        } else {
+            Ok(Tens::Float(v))
+        }
     }
 }
 
